@@ -33,9 +33,10 @@ type tcpHandler struct {
 }
 
 type connInfo struct {
-	conn      net.Conn
-	idleTime  int64
-	numInvoke int32
+	conn         net.Conn
+	idleTime     int64
+	numInvoke    int32
+	closeMsgSent int32
 }
 
 func (t *tcpHandler) Listen() (err error) {
@@ -173,13 +174,20 @@ func (t *tcpHandler) sendCloseMsg() {
 		if err := conn.conn.SetReadDeadline(time.Now()); err != nil {
 			TLOG.Errorf("SetReadDeadline: %w", err)
 		}
-		// send a reconnect-message
-		TLOG.Debugf("send close message to %v", conn.conn.RemoteAddr())
-		if _, err := conn.conn.Write(closeMsg); err != nil {
-			TLOG.Errorf("send closeMsg to %v failed %v", conn.conn.RemoteAddr(), err)
-		}
+		t.sendCloseMsgTo(conn, closeMsg)
 		return true
 	})
+}
+
+// sendCloseMsgTo sends the reconnect-message to one connection, at most once.
+func (t *tcpHandler) sendCloseMsgTo(conn *connInfo, closeMsg []byte) {
+	if !atomic.CompareAndSwapInt32(&conn.closeMsgSent, 0, 1) {
+		return
+	}
+	TLOG.Debugf("send close message to %v", conn.conn.RemoteAddr())
+	if _, err := conn.conn.Write(closeMsg); err != nil {
+		TLOG.Errorf("send closeMsg to %v failed %v", conn.conn.RemoteAddr(), err)
+	}
 }
 
 // CloseIdles close all idle connections(no active package within n secnods)
@@ -223,6 +231,11 @@ func (t *tcpHandler) recv(connSt *connInfo) {
 			if atomic.LoadInt32(&connSt.numInvoke) == 0 {
 				break
 			}
+		}
+		if atomic.LoadInt32(&t.server.isClosed) == 1 {
+			// the shutdown poller may not have reached this connection yet (it can be held up
+			// by a slow client on another one): never close without the reconnect-message
+			t.sendCloseMsgTo(connSt, t.server.protocol.GetCloseMsg())
 		}
 		TLOG.Debugf("Close connection: %v", conn.RemoteAddr())
 		conn.Close()
